@@ -106,6 +106,23 @@ def forms_program():
     )
     F.append(
         fn(
+            "chainstores",
+            ["p"],
+            [
+                ["bind", "o", ["obj"]],
+                ["bind", "i", ["const", 0]],
+                # order-sensitive chains: observable stores, and a later target
+                # that reads a name bound by an earlier one
+                ["chain", [["attr", "o", "first"], ["attr", "o", "second"], "x"], V],
+                ["chain", ["i", ["sub", "o", var("i")]], ["add", var("i"), V]],
+                ["chain", [["sub", "o", V], "y", ["attr", "o", "n"]], var("x")],
+                use("x", "y", "i"),
+                ["ret", var("i")],
+            ],
+        )
+    )
+    F.append(
+        fn(
             "aug",
             ["p"],
             [
